@@ -102,8 +102,13 @@ impl ProgramLines {
                     if let (Some(Token::Symbol(symbol)), Token::NumericLiteral(_)) =
                         (prev_token, token)
                     {
-                        if !symbol.as_str().ends_with('$') && string.starts_with("0.") {
-                            string.remove(0);
+                        if !symbol.as_str().ends_with('$') {
+                            if string.starts_with("0.") {
+                                string.remove(0);
+                            } else if string == "0" {
+                                // `X.0`
+                                string = ".0".to_string();
+                            }
                         }
                     }
                     prev_token = Some(token);
